@@ -690,6 +690,16 @@ def check_key_traits(run, ctx):
         else:
             run.bad('C02-T1', 'blanket-impl/not-debug', 'the default cache key must be exactly the Debug rendering of the value (self-delimiting for strings and chars)', site=body.name,
                     oracle='format!("{:?}", self)')
+    direct = sorted(i['self_ty'] for i in ctx.core.impls if i['trait'] == 'cachelito_core::keys::CacheableKey')
+    n += 1
+    if direct == ['T']:
+        run.ok('C02-T3', 'only-the-blanket-impl', 'every built-in key is rendered by the blanket impl (Debug)')
+    else:
+        for d in direct:
+            if d != 'T':
+                run.bad('C02-T3', 'custom-rendering/%s' % d, 'cachelito-core implements CacheableKey for %s directly: its key is no longer the Debug rendering, so the self-delimiting grammar '
+                        'argument (quotes, brackets, escapes) behind "distinct arguments never share a key" does not cover it' % d, site='cachelito_core::keys',
+                        oracle='built-in keys are Debug renderings (DefaultCacheableKey + blanket impl)')
     impls = sorted(i['self_ty'] for i in ctx.core.impls if i['trait'] == 'cachelito_core::keys::DefaultCacheableKey')
     extra = [i for i in impls if i not in REVIEWED_KEY_TYPES]
     missing = [i for i in REVIEWED_KEY_TYPES if i not in impls]
@@ -723,4 +733,24 @@ def check_scope_types(run, ctx):
             else:
                 run.bad('C14-T1', '%s.%s/type' % (adt.rsplit('::', 1)[-1], fname), 'field %s of %s has type %s: %s storage is no longer guaranteed by the type' % (
                     fname, adt, ty, 'per-thread' if adt == N.THREAD else 'process-wide'), site=adt, oracle="&'static %s..." % prefix)
+    return n
+
+
+def check_order_preserving(run, ctx, rule='C07-S2', generated=True):
+    """the order queue is only ever changed by push at the store end, pop at the victim end, positional removal and
+    retain: swap_remove / rotate / insert-at would silently change the recency / insertion order of the survivors"""
+    from .effects import Q_REORDERING, Effects
+    eff = Effects(ctx.prog)
+    n = 0
+    for body in ctx.prog.bodies.values():
+        if body.crate is not ctx.core and not (generated and ctx.role(body)):
+            continue
+        for (b, k, t) in eff.prim(body):
+            if k.startswith('Q'):
+                n += 1
+                if k in Q_REORDERING:
+                    run.bad(rule, '%s/%s' % (ctx.label(body), callee_name(t).rsplit('::', 1)[-1]), '%s changes the order queue with %s at %s: the relative order of the remaining keys '
+                            '(insertion / recency order that FIFO, LRU, ARC and TLRU evict by) is no longer what it would be had the removed key never been stored'
+                            % (body.name, callee_name(t).rsplit('::', 1)[-1], body.loc(b)), site='%s (%s)' % (body.name, body.loc(b)), oracle='queue removals preserve the order of the survivors')
+    run.ok(rule, 'queue-operations', '%d order-queue operations in the core and in generated code, none reorders the survivors' % n)
     return n
